@@ -123,7 +123,9 @@ def run(ctx):
             ln = r.choice([0, 0, 1, max(0, hi - t)])
             idxs = [7] if combo == "open" else list(combo)
             body += nt.group_lines(t, combo, {ix: ln for ix in idxs})
-        case = {"id": f"s{k}", "res": res_, "sync": [("B", t, n) for t, n in tempo] + [("TS", 0, 4)], "events": [],
+        # (anchor lines on note ticks and elsewhere, with times of their own: a tick bound means the tempo-map time)
+        anchors = [("A", t, r.choice([0, 1, r.randrange(0, 10**8)])) for t in sorted(r.sample(ticks, min(len(ticks), r.choice([0, 1, 3, 8]))))]
+        case = {"id": f"s{k}", "res": res_, "sync": [("B", t, n) for t, n in tempo] + [("TS", 0, 4)] + anchors, "events": [],
                 "tracks": {"ExpertSingle": body, "HardSingle": [("S", 0, 5)]}}
         try:
             chart = parse(tm.case_text(case))
